@@ -1,19 +1,78 @@
 package checks
 
 import (
+	"fmt"
+	"math/rand"
+
 	"verif/corpus"
+	"verif/der"
 	"verif/gen"
 	"verif/mon"
 )
 
-// addGenSeeds adds generated seeds (scopes the repository corpus is thin on)
-// to the mutation pool.
+// FamilyStart is the index in W.Objs of the first generated-family member
+// (everything before it is the frozen corpus).
+var FamilyStart, FamilyEnd int
+
+var familyEKUs = []string{gen.OIDEkuServer, gen.OIDEkuClient, gen.OIDEkuCode, gen.OIDEkuEmail, gen.OIDEkuTime, gen.OIDEkuOCSP, gen.OIDEkuAny,
+	"2.16.840.1.113730.4.1" /* nsSGC */, "1.3.6.1.4.1.311.10.3.3" /* msSGC */, "1.3.6.1.5.5.7.3.5" /* ipsecEndSystem */, "1.3.6.1.4.1.99999.1"}
+
+// addGenSeeds adds generated seeds (scopes and combinations the repository
+// corpus is thin on) to the seed pool.
 func addGenSeeds(w *mon.Workload) {
 	nb := gen.D(2024, 3, 1)
+	FamilyStart = len(w.Objs)
 	w.Extra(corpus.Cert, "gen/tls", gen.TLSLeaf(nb, "www.example.com", "example.org").DER())
 	w.Extra(corpus.Cert, "gen/smime", gen.SMIMELeaf(nb, "alice@example.com").DER())
 	w.Extra(corpus.Cert, "gen/cs", gen.CSLeaf(nb).DER())
 	w.Extra(corpus.Cert, "gen/subca", gen.SubCA(nb).DER())
 	w.Extra(corpus.Cert, "gen/root", gen.RootCA(gen.D(2010, 1, 1), gen.DefaultKey()).DER())
 	w.Extra(corpus.CRL, "gen/crl", gen.BasicCRL(nb).DER())
+	// key-usage x extended-key-usage combinations on subscriber certificates (fixed generator seed:
+	// the family is part of the seed pool, identical for every VERIF_SEED)
+	rng := rand.New(rand.NewSource(20240301))
+	for k := 0; k < 96; k++ {
+		var s *gen.Spec
+		switch k % 3 {
+		case 0:
+			s = gen.TLSLeaf(nb, "www.example.com")
+		case 1:
+			s = gen.SMIMELeaf(nb, "alice@example.com")
+		default:
+			s = gen.CSLeaf(nb)
+		}
+		n := 1 + rng.Intn(3)
+		var ekus []string
+		for j := 0; j < n; j++ {
+			ekus = append(ekus, familyEKUs[rng.Intn(len(familyEKUs))])
+		}
+		var bits []int
+		for b := 0; b < 9; b++ {
+			if rng.Intn(3) == 0 {
+				bits = append(bits, b)
+			}
+		}
+		if len(bits) == 0 {
+			bits = []int{0}
+		}
+		s.ReplaceExt(gen.ExtEKU(false, ekus...))
+		s.ReplaceExt(gen.ExtKU(k%4 != 0, bits...))
+		w.Extra(corpus.Cert, fmt.Sprintf("gen/kueku/%d:ku%v:eku%d", k, bits, len(ekus)), s.DER())
+	}
+	// SAN shapes: mixed-case names shared with the common name, 3 / 5 entries (spare slice capacity after parsing)
+	for k, names := range [][]string{
+		{"WWW.Example.com", "example.com", "api.example.com"},
+		{"Mail.Example.ORG", "www.example.org", "example.org", "a.example.org", "B.example.org"},
+		{"xn--Bcher-kva.example.com", "www.example.com", "EXAMPLE.com"},
+		{"abc.Onion", "www.example.com", "x.example.com"},
+	} {
+		s := gen.TLSLeaf(nb, names...)
+		var gns []*der.Node
+		for _, n := range names {
+			gns = append(gns, gen.GNDNS(n))
+		}
+		s.ReplaceExt(gen.ExtSAN(false, gns...))
+		w.Extra(corpus.Cert, fmt.Sprintf("gen/mixedcase/%d", k), s.DER())
+	}
+	FamilyEnd = len(w.Objs)
 }
